@@ -15,7 +15,12 @@ STATUS = [b'HTTP/1.1 200 OK', b'HTTP/1.0 404 Not Found', b'HTTP/1.1 301', b'HTTP
 FIELDS = [[], [b'Content-Type: text/html'], [b'content-type:application/json; charset=utf-8', b'Server: x'], [b'A: b', b'Content-Type:  image/png  ', b'X: ' + b'y' * 200],
           [b'Set-Cookie: a=b', b'Set-Cookie: c=d', b'Content-Type: text/plain;x=1'], [b'Folded: a', b' continued', b'Content-Type: text/css']]
 EOL = [b'\r\n', b'\n']
-BODY = [b'', b'body', b'\r\n\r\nmore', b'\x00\xff' * 10, b'z' * 5000]
+BODY = [b'', b'body', b'\r\n\r\nmore', b'\x00\xff' * 10, b'z' * 5000,
+        # bodies that look like a header block themselves (a CGI script that printed its own header, a multipart body): the header of the ARCHIVED response ends at the
+        # EARLIEST blank line, whatever mix of CRLF and bare LF the lines use
+        b'Content-Type: evil/body\r\n\r\nrest', b'x\r\nContent-Type: evil/body\r\n\r\nrest', b'Content-Type: evil/body\n\nrest', b'no blank line in here ' * 10]
+# the line terminators of a block are chosen per line, and the blank line has its own two
+TERMS = [(b'\r\n', b'\r\n'), (b'\n', b'\n'), (b'\n', b'\r\n'), (b'\r\n', b'\n')]
 
 
 def reference(block):
@@ -45,8 +50,17 @@ def main():
     for _ in range(extra):
         fl = [rnd.choice(sum(FIELDS, [b'Q: r'])) for _ in range(rnd.randint(0, 40))]
         cases.append((rnd.choice(STATUS), fl, rnd.choice(EOL), rnd.choice(BODY)))
-    for st, fl, eol, body in cases:
-        block = eol.join([st] + fl) + eol + eol + body
+    blocks = [eol.join([st] + fl) + eol + eol + body for st, fl, eol, body in cases]
+    # mixed line endings: every line of the header picks CRLF or LF on its own (seeded), the last line and the blank line take each of the four combinations;
+    # plus blocks without any blank line (a header cut at the 4096 byte window)
+    for st, fl, body in itertools.product(STATUS[:3], FIELDS, BODY):
+        for t1, t2 in TERMS:
+            for mix in range(3):
+                lines = [st] + fl
+                blk = b''.join(l + (EOL[(mix + k) % 2] if mix < 2 else rnd.choice(EOL)) for k, l in enumerate(lines[:-1])) + lines[-1] + t1 + t2 + body
+                blocks.append(blk)
+        blocks.append(b'\n'.join([st] + fl) + b'\n' + body.replace(b'\r\n\r\n', b'\r\n').replace(b'\n\n', b'\n'))
+    for block in blocks:
         n += 1; distinct.add(hash(block))
         rec = WARCRecord(); rec.block_file = io.BytesIO(block)
         h = rec.get_http_header()
@@ -54,9 +68,9 @@ def main():
         got = None if h is None else (h.status_code, R.WARCRecorder.parse_mimetype(h.fields.get('Content-Type', '')))
         if got != exp and len(bad) < 50: bad.append({'block': repr(block[:120]), 'expected (status, mime)': exp, 'got': got})
     doc = {'label': 'bounded', 'functions': ['wpull/warc/format.py:WARCRecord.get_http_header', 'wpull/warc/recorder.py:WARCRecorder.parse_mimetype'], 'cases': n,
-           'distinct_nontrivial': len(distinct), 'bound': '%d grammar combinations (status lines x field lists x EOL x body prefixes) + %d seeded random field lists up to 40 fields' % (len(STATUS) * len(FIELDS) * len(EOL) * len(BODY), extra),
+           'distinct_nontrivial': len(distinct), 'bound': '%d grammar combinations (status lines x field lists x EOL x body prefixes, bodies that look like header blocks included) + %d seeded random field lists up to 40 fields + per-line mixed CRLF/LF with all four blank-line forms + blocks without a blank line' % (len(STATUS) * len(FIELDS) * len(EOL) * len(BODY), extra),
            'rule': 'every block is a distinct header shape; the reference parser is written from RFC 7230 header block structure', 'result': 'no violation' if not bad else '%d violations' % len(bad),
-           'violations': bad, 'known_findings': [], 'samples': [repr(eol.join([STATUS[0]] + FIELDS[2]) + eol + eol)[:120]], 'wall_s': round(time.time() - t0, 1)}
+           'violations': bad, 'known_findings': [], 'samples': [repr(b'\r\n'.join([STATUS[0]] + FIELDS[2]) + b'\r\n\r\n')[:120]], 'wall_s': round(time.time() - t0, 1)}
     json.dump(doc, open(a.out, 'w'), indent=1)
     return 1 if bad else 0
 
